@@ -12,13 +12,14 @@ B == "127.0.0.2"
 C == "127.0.0.3"
 Cfg == [BaseCfg EXCEPT !.network = "ConfNet", !.motd = "configured: motd", !.admin_info2 = <<"line two">>, !.admin_email = <<"root@conf.net">>,
           !.password = <<"srvpass">>, !.max_joins = <<2>>, !.default_modes = {"i", "w"},
-          !.users = << [name |-> "reg1", nick |-> "reg1", pass |-> <<"userpass">>, mask |-> <<"*!*@127.0.0.2">>] >>,
+          !.users = << [name |-> "reg1", nick |-> "reg1", pass |-> <<"userpass">>, mask |-> <<"*!*@127.0.0.2">>],
+                       [name |-> "Reg2", nick |-> "Reg2", pass |-> <<"userpass">>, mask |-> <<>>] >>,
           !.operators = << [name |-> "god", pass |-> "godpass", mask |-> <<"*!*@127.0.0.1">>] >>,
           !.channels = << [ChanCfg("#conf") EXCEPT !.topic = <<"configured topic">>, !.key = <<"ckey">>, !.flags = {"t", "n"}, !.o = {"alice"}, !.v = {"bob"}] >>]
 Pre == << St(A, "!open", <<>>), St(A, "PASS", <<<<"srvpass">>>>), St(A, "NICK", <<<<"alice">>>>), St(A, "USER", <<<<"u1">>, <<"Real u1">>>>),
           St(B, "!open", <<>>), St(B, "NICK", <<<<"bob">>>>), St(C, "!open", <<>>), St(C, "NICK", <<<<"carol">>>>), St(C, "PASS", <<<<"srvpass">>>>) >>
 Acts == { St(B, "PASS", <<<<"userpass">>>>), St(B, "PASS", <<<<"srvpass">>>>), St(B, "USER", <<<<"reg1">>, <<"R">>>>), St(B, "USER", <<<<"u2">>, <<"R">>>>),
-          St(C, "USER", <<<<"reg1">>, <<"R">>>>), St(C, "USER", <<<<"u3">>, <<"R">>>>) }
+          St(C, "USER", <<<<"reg1">>, <<"R">>>>), St(C, "USER", <<<<"u3">>, <<"R">>>>), St(C, "USER", <<<<"Reg2">>, <<"R">>>>), St(C, "USER", <<<<"reg2">>, <<"R">>>>) }
         \cup { St(c, "JOIN", <<<<"#conf">>, <<"ckey">>>>) : c \in {A, B} } \cup { St(A, "JOIN", <<<<"#conf">>>>), St(A, "PART", <<<<"#conf">>>>) }
         \cup { St(c, "JOIN", <<<<"#a", "#b", "#c">>>>) : c \in {A, B} } \cup { St(A, "JOIN", <<<<"#a">>>>), St(A, "JOIN", <<<<"#b", "#conf">>, <<"x", "ckey">>>>), St(A, "PART", <<<<"#a">>>>) }
         \cup { St(c, "OPER", <<<<"god">>, <<"godpass">>>>) : c \in {A, B} }
